@@ -90,3 +90,108 @@ func progFromSource(feature, src string) (*Prog, error) {
 	}
 	return p, nil
 }
+
+// pruneDecls drops the top-level declarations of src that no exported function
+// reaches (shape templates share a prelude most variants use only partly).
+func pruneDecls(src string) string {
+	fset := token.NewFileSet()
+	file, err := parser.ParseFile(fset, "prog.go", "package main\n\n"+src, parser.ParseComments)
+	if err != nil {
+		return src
+	}
+	type decl struct {
+		names []string
+		node  ast.Decl
+		keep  bool
+	}
+	var decls []*decl
+	byName := map[string]*decl{}
+	for _, d := range file.Decls {
+		dd := &decl{node: d}
+		switch x := d.(type) {
+		case *ast.FuncDecl:
+			if x.Recv != nil {
+				// a method stays with its receiver type
+				var b bytes.Buffer
+				printer.Fprint(&b, fset, x.Recv.List[0].Type)
+				dd.names = []string{"method:" + strings.TrimPrefix(b.String(), "*") + "." + x.Name.Name}
+			} else {
+				dd.names = []string{x.Name.Name}
+				if x.Name.IsExported() || x.Name.Name == "init" {
+					dd.keep = true
+				}
+			}
+		case *ast.GenDecl:
+			for _, sp := range x.Specs {
+				switch s := sp.(type) {
+				case *ast.ValueSpec:
+					for _, n := range s.Names {
+						dd.names = append(dd.names, n.Name)
+					}
+				case *ast.TypeSpec:
+					dd.names = append(dd.names, s.Name.Name)
+				}
+			}
+		}
+		decls = append(decls, dd)
+		for _, n := range dd.names {
+			byName[n] = dd
+		}
+	}
+	for changed := true; changed; {
+		changed = false
+		for _, d := range decls {
+			if !d.keep {
+				continue
+			}
+			ast.Inspect(d.node, func(n ast.Node) bool {
+				id, ok := n.(*ast.Ident)
+				if !ok {
+					return true
+				}
+				if o, ok := byName[id.Name]; ok && !o.keep {
+					o.keep = true
+					changed = true
+				}
+				return true
+			})
+		}
+		// methods of kept types are kept
+		for _, d := range decls {
+			if d.keep || len(d.names) != 1 || !strings.HasPrefix(d.names[0], "method:") {
+				continue
+			}
+			tn := strings.TrimPrefix(d.names[0], "method:")
+			tn = tn[:strings.Index(tn, ".")]
+			if o, ok := byName[tn]; ok && o.keep {
+				d.keep = true
+				changed = true
+			}
+		}
+	}
+	var b strings.Builder
+	for _, d := range decls {
+		if !d.keep {
+			continue
+		}
+		start := d.node.Pos()
+		switch x := d.node.(type) {
+		case *ast.FuncDecl:
+			if x.Doc != nil {
+				start = x.Doc.Pos()
+			}
+		case *ast.GenDecl:
+			if x.Doc != nil {
+				start = x.Doc.Pos()
+			}
+		}
+		full := "package main\n\n" + src
+		b.WriteString(full[fset.Position(start).Offset:fset.Position(d.node.End()).Offset])
+		b.WriteString("\n\n")
+	}
+	out := strings.TrimRight(b.String(), "\n") + "\n"
+	if _, err := parser.ParseFile(token.NewFileSet(), "p.go", "package main\n\n"+out, 0); err != nil {
+		return src
+	}
+	return out
+}
